@@ -109,6 +109,14 @@ Theorem C15lex_parser_depth_parens :
 Proof. exact parens_300. Qed.
 Print Assumptions C15lex_parser_depth_parens.
 
+(* tokenizer and expression parser composed, for EVERY text and EVERY pair of Unicode tables *)
+Theorem C15lex_front_end_total : forall is_alpha is_numeric q,
+  (blen q < USIZE)%N ->
+  (exists r, front_end is_alpha is_numeric q = Ok r /\ out r <> PPanic /\ out r <> PFuel) \/
+  (exists c, front_end is_alpha is_numeric q = Err c).
+Proof. exact front_end_total. Qed.
+Print Assumptions C15lex_front_end_total.
+
 (* the precedences the skeleton reads from ast/expr.rs were all found *)
 Theorem C15lex_precedences_present :
   Forall (fun p : option N => p <> None)
